@@ -34,8 +34,9 @@ class Fn:
 
     def __init__(self, cname, tu, name, flt=None, select=None, kinds=('CXXMethodDecl', 'FunctionDecl', 'CXXConstructorDecl'),
                  self_struct=None, types=(), calls=(), members=(), hooks=(), stmt_hooks=(), aggregates=(),
-                 ret=None, lambda_index=None, extra_params=(), post=None, uf_float=True):
+                 ret=None, lambda_index=None, extra_params=(), post=None, uf_float=True, opaque=()):
         self.uf_float = uf_float
+        self.opaque = opaque
         self.cname = cname
         self.tu = tu
         self.name = name
@@ -64,7 +65,7 @@ class Fn:
                 raise ExtractionError(f'{self.cname}: lambda without operator()')
             d = ops[0]
         P = cxx2c.Printer(self.cname, self.types, self.calls, self.members, self.hooks, self.self_struct,
-                          self.aggregates, self.stmt_hooks, self.uf_float)
+                          self.aggregates, self.stmt_hooks, self.uf_float, self.opaque)
         text = P.function(d, self.ret, self.extra_params)
         if self.post:
             text = self.post(text)
@@ -121,7 +122,7 @@ class Target:
                                       'sha': astload.file_hash(src), 'loops': P.loops})
             for k, v in P.used.items():
                 info['mappings'][k] = info['mappings'].get(k, 0) + v
-            info['dropped_statements'] += [f'{f.tu}:{ln}' for ln in P.dropped]
+            info['dropped_statements'] += [f'{f.tu}:{ln}' for ln in P.dropped] + [f'{f.tu}: {e}' for e in P.erased]
             if f.cname == self.enforce:
                 enforced_printer = P
         harness = self.harness
